@@ -10,7 +10,7 @@ if [ -n "$(git -C /repo status --short)" ]; then echo "/repo is not clean"; exit
 for sid in "${ids[@]}"; do
   prop=${sid%%-*}
   cp evidence/$prop.json /tmp/.seeded_eval_ev.$$ 2>/dev/null
-  git -C /repo apply "seeded/$sid/patch.diff" || { echo "$sid: patch does not apply"; continue; }
+  git -C /repo apply "$HERE/seeded/$sid/patch.diff" || { echo "$sid: patch does not apply"; continue; }
   VERIF_TIMEOUT=${VERIF_TIMEOUT:-400} ./check $prop quick > /tmp/.seeded_eval_out.$$ 2>&1; rc=$?
   git -C /repo checkout -- . ; git -C /repo clean -fdq
   [ -f /tmp/.seeded_eval_ev.$$ ] && mv /tmp/.seeded_eval_ev.$$ evidence/$prop.json
